@@ -224,7 +224,7 @@ func searchShapeJobs(tier string) []Job {
 func init() {
 	propMeta["C04"] = PropMeta{
 		Bounds: map[string]interface{}{
-			"quick":    "L-num: ALL uint32 values and counts (bit-vectors); L-quad: ALL finite doubles with midpoints unconstrained; Search==filter with nondeterministic stop and ANY non-NaN query rectangle (infinities included): series of 0..8 points, open / closed / closed with repeated point, no index and single-node compressed R-tree and quadtree (real constants), threshold below/at/above; moved series n = 4; multi-node trees with node constants scaled down by a source overlay regenerated from the current qtree.go/rtree.go: quadtree (2 items, depth 2) on 3..4 points, every tree shape; R-tree (2 entries) on 3..4 points; a concrete 40-point line moved by 2^52 / 2^51 / 8 (rounding additions, IEEE arithmetic on constants); concrete 40..300-point layouts with the real node constants (R-tree of height 2, quadtree depth-limit buckets, a comb on non-dyadic coordinates 0.1*k whose midpoints round: IEEE arithmetic on constants) under every query rectangle, also with a nondeterministic stop at every segment",
+			"quick":    "L-num: ALL uint32 values and counts (bit-vectors); L-quad: ALL finite doubles with midpoints unconstrained; Search==filter with nondeterministic stop and ANY non-NaN query rectangle (infinities included): series of 0..8 points, open / closed / closed with repeated point, no index and single-node compressed R-tree and quadtree (real constants), threshold below/at/above; moved series n = 4; multi-node trees with node constants scaled down by a source overlay regenerated from the current qtree.go/rtree.go: quadtree (2 items, depth 2) on 3..4 points, every tree shape; R-tree (2 entries) on 3..4 points; a concrete 40-point line moved by 2^52 / 2^51 / 8 (rounding additions, IEEE arithmetic on constants); concrete 40..300-point layouts with the real node constants (R-tree of height 2, quadtree depth-limit buckets, a comb on non-dyadic coordinates 0.1*k whose midpoints round: IEEE arithmetic on constants, zig-zags packed into one quadrant so that a second-level quadrant splits) under every query rectangle, also with a nondeterministic stop at every segment",
 			"thorough": "series up to 16 points (R-tree) / 32 (quadtree) single node; quadtree shapes on 5 points",
 		},
 		Outside:     []string{"multi-node trees with the real constants (more than 32 / 16 segments) symbolically: covered only through the scaled-constant configurations", "4-byte item encodings (> 65535 segments): covered by L-num only", "order-independence of the predicates under permuted report order (not built)"},
@@ -277,7 +277,7 @@ func init() {
 		}
 		// the full search contract (exactly-once, index, nondeterministic stop at every segment) on concrete layouts with
 		// the real constants: R-tree of height 2 (300 segments), quadtrees with depth-limit buckets and inner items
-		for _, t := range [][3]int{{2, 300, 1}, {3, 100, 1}, {2, 257, 2}, {1, 300, 2}, {0, 40, 2}, {4, 66, 2}, {4, 66, 1}} {
+		for _, t := range [][3]int{{2, 300, 1}, {3, 100, 1}, {2, 257, 2}, {1, 300, 2}, {0, 40, 2}, {4, 66, 2}, {4, 66, 1}, {5, 82, 2}, {6, 82, 2}, {7, 82, 2}, {8, 82, 2}, {5, 82, 1}} {
 			out = append(out, Job{Pkg: "geometry", Harness: "H_Search_Template", Params: []int{t[0], t[1], t[2], 1}, Timeout: 120, Unwind: 600, Combine: true, NoCover: t[1] != 300 || t[2] != 1,
 				Note: "S-template with stops: concrete layout, real node constants, every query rectangle, stop allowed at every segment"})
 		}
@@ -455,6 +455,20 @@ func apiJobs(tier string) []Job {
 	for _, pr := range [][2][]ipt{{bigTri, smallTri}, {bigTri, sq1}, {diamond4, sq1}, {diamond4, smallTri}} {
 		for _, kind := range []int{0, 9} {
 			params := append(append([]int{kind}, ringParams(pr[0])...), ringParams(pr[1])...)
+			out = append(out, Job{Pkg: "geometry", Harness: "H_API_PolyPoly", Params: params, Timeout: 120, Scale: true, Contracts: c, NoCover: true})
+		}
+	}
+	// a concave (U-shaped) outer ring against a square that can bridge the notch with any one of its edges: every start
+	// vertex of the square (so that each edge is in turn the implicit closing segment), closed and unclosed encodings
+	uShape := []ipt{{0, 0}, {6, 0}, {6, 6}, {4, 6}, {4, 2}, {2, 2}, {2, 6}, {0, 6}}
+	sq4 := []ipt{{0, 0}, {4, 0}, {4, 4}, {0, 4}}
+	for rot := 0; rot < 4; rot++ {
+		b := append(append([]ipt{}, sq4[rot:]...), sq4[:rot]...)
+		for _, kind := range []int{0, 9} {
+			if kind == 0 && rot > 0 {
+				continue
+			}
+			params := append(append([]int{kind}, ringParams(uShape)...), ringParams(b)...)
 			out = append(out, Job{Pkg: "geometry", Harness: "H_API_PolyPoly", Params: params, Timeout: 120, Scale: true, Contracts: c, NoCover: true})
 		}
 	}
@@ -778,7 +792,7 @@ func init() {
 func matrixJobs(freeze int, full bool) []Job {
 	var out []Job
 	c := []string{fnRaycast, fnSegSeg}
-	n := 32
+	n := 34
 	inSet := func(x int, s ...int) bool {
 		for _, v := range s {
 			if v == x {
@@ -789,7 +803,13 @@ func matrixJobs(freeze int, full bool) []Job {
 	}
 	for a := 0; a < n; a++ {
 		for b := 0; b < n; b++ {
-			if a >= 30 || b >= 30 {
+			if a >= 32 || b >= 32 {
+				// 32: concrete 16-point polygon (indexed); 33: rectangle with symbolic corners
+				ok := a == 32 && inSet(b, 0, 8, 19) || b == 32 && inSet(a, 0, 8, 19) // (33 x 32 costs minutes of symbolic execution: left out)
+				if !ok {
+					continue
+				}
+			} else if a >= 30 || b >= 30 {
 				// 30: one-point line with an (empty) R-tree index; 31: polygon with degenerate holes, R-tree index
 				// (the pair (20,31) is left out: the engine cannot re-read the quadtree bytes of 20 there — an engine limit)
 				ok := a >= 30 && inSet(b, 0, 4, 7, 8, 19, 21, 30, 31) || b >= 30 && inSet(a, 0, 7, 8, 19, 21)
